@@ -195,9 +195,16 @@ def run(ctx) -> None:
                  and not (isinstance(n.ast.value, ast.Constant) and isinstance(n.ast.value.value, bool))]
     ctx.require(bool(ret_true), "anchor missing: 'return True' in _input_dependencies_satisfied")
     for r_ in ret_other:
-        ctx.ob("C01.R4-deps-satisfied", r_.ast, False,
-               "_input_dependencies_satisfied returns a value that is not a literal True/False; cannot establish "
-               "that True implies satisfied dependencies")
+        verdict = _classify_subject_return(r_.ast.value)
+        if verdict == "all":
+            ctx.ob("C01.R4-deps-satisfied", r_.ast, True, "returns whether ALL active subjects are staged in")
+        elif verdict == "some":
+            ctx.ob("C01.R4-deps-satisfied", r_.ast, False,
+                   "_input_dependencies_satisfied returns true when only SOME active subject is staged in (%s): a repeating "
+                   "observer with several same-stage producers is released although one of them has not been launched yet"
+                   % short(r_.ast.value, 80))
+        else:
+            raise AnalysisError("_input_dependencies_satisfied returns an expression the rule cannot classify: %s" % short(r_.ast, 100))
     prod_tests = match.test_nodes(c2, _len_positive_of("active_producers"))
     subj_tests = match.test_nodes(c2, lambda t: _membership(t, "comp_staged_in"))
     # active_producers must be the 'producers' entry of _comp_get_active_predecessors
@@ -348,6 +355,30 @@ def run(ctx) -> None:
 
 
 # ---------------------------------------------------------------------------------------------------------
+
+def _classify_subject_return(e: ast.AST) -> str:
+    """'all' / 'some' / '?' for a boolean expression about subjects being members of comp_staged_in."""
+    txt = source.src(e)
+    if "comp_staged_in" not in txt:
+        return "?"
+    if isinstance(e, ast.Call) and call_name(e) == "all":
+        return "all"
+    if isinstance(e, ast.Call) and call_name(e) == "any":
+        return "some"
+    if isinstance(e, ast.Call) and last_attr(e) in ("issuperset",) and "comp_staged_in" in source.src(e.func.value):
+        return "all"
+    if isinstance(e, ast.Call) and last_attr(e) in ("issubset",) and e.args and "comp_staged_in" in source.src(e.args[0]):
+        return "all"
+    if isinstance(e, ast.Compare) and len(e.ops) == 1 and isinstance(e.ops[0], (ast.LtE, ast.GtE)):
+        small, big = (e.left, e.comparators[0]) if isinstance(e.ops[0], ast.LtE) else (e.comparators[0], e.left)
+        if "comp_staged_in" in source.src(big) and "comp_staged_in" not in source.src(small):
+            return "all"
+    if isinstance(e, ast.UnaryOp) and isinstance(e.op, ast.Not) and isinstance(e.operand, ast.Call) and last_attr(e.operand) == "isdisjoint":
+        return "some"
+    if isinstance(e, ast.Call) and call_name(e) in ("bool", "len") and e.args and ("intersection" in source.src(e.args[0]) or "&" in source.src(e.args[0])):
+        return "some"
+    return "?"
+
 
 def _strip_nested(q: str) -> str:
     parts = q.split(".")
